@@ -1,10 +1,13 @@
 """C29 - P2P behaviours never panic on peer-driven input.
 
-spec/p2p/Initiator.tla (design model, total: every command / interface event has a successor in every state)
+spec/p2p/Initiator.tla, Responder.tla (design models, total: every command / interface event has a successor in
+                                        every state)
   MC   : MCInitiator slices with an UNCONSTRAINED environment (any event, any message of the slice protocols,
          valid or not, in any state); the only modelled panics are the Rust assertions / unsigned subtractions;
-         invariant  pan \\subseteq known C29 classes,  NoUnderflow
-  M2   : TLC's panic schedules + a behaviour cover replayed into the real InitiatorBehavior
+         invariant  pan \\subseteq known C29 classes,  NoUnderflow;  MCResponder: all events, all message kinds of all
+         protocols and all commands in every state (2 peers behind one IP, per-IP limit 1)
+  M2   : TLC's panic schedules + a behaviour cover replayed into the real InitiatorBehavior; a behaviour cover of
+         MCResponder replayed into the real ResponderBehavior
   M3   : seeded random event sequences (<= 300 events, arbitrary messages of all protocols, errors, disconnects)
          on the real Initiator- and ResponderBehavior under catch_unwind; verdict = TraceNoPanic (TLC);
          small runs are also compared step by step with the design model (TraceInitiator; mismatch = DRIFT note)
@@ -58,13 +61,14 @@ def judge(ctx, trace, what):
     return n, total
 
 
-def drift(ctx, trace, what):
-    ok, matched, total, first, marks = pc.validate(ctx, "TraceInitiator", trace, count=False)
+def drift(ctx, trace, what, module="TraceInitiator"):
+    ok, matched, total, first, marks = pc.validate(ctx, module, trace, count=False)
     d = [(line, p) for tag, line, p in marks if tag == "DRIFT"]
     if not ok:
         ctx.notes.append("DRIFT(%s): design-model comparison stopped at event %d: %s" % (what, matched + 1, json.dumps(first)[:200]))
     for line, p in d[:5]:
-        ctx.notes.append("DRIFT(%s): implementation step %d not reproduced by Initiator.tla: %s" % (what, line, json.dumps(p)[:200]))
+        ctx.notes.append("DRIFT(%s): implementation step %d not reproduced by the design model (%s): %s" % (
+            what, line, module, json.dumps(p)[:200]))
     ctx.count("design_model_steps_compared", total)
     ctx.count("design_model_drift", len(d) + (0 if ok else 1))
     return len(d)
@@ -99,6 +103,28 @@ def run(ctx):
             rows.append({"id": "%s-%s%d" % (name, s["kind"][0], i), "cfg": cfg, "sched": s["sched"],
                          "expect": s["c29"] if s["kind"] == "finding" else []})
 
+    # responder design model: totality (all events / messages / commands in all states within the bound)
+    rcfg = ctx.path("MCResponder.cfg")
+    src = open(os.path.join(vlib.SPEC, "p2p", "MCResponder.cfg")).read()
+    open(rcfg, "w").write(src.replace("RMaxDepth = 4", "RMaxDepth = %d" % (4 if ctx.thorough else 3)))
+    rres = ctx.tlc_mc("p2p", "MCResponder", rcfg, workers=4,
+                      required_actions=["RIoConnected", "RIoDisconnected", "RIoError", "RIoRecv", "RIoSent", "RCmdHousekeeping",
+                                        "RCmdBan", "RCmdDisconnect", "RCmdProvide"])
+    rscheds, seen = [], set()
+    for m in ctx.VEC_RE.finditer(rres["out"]):
+        t = json.loads(m.group(2).replace("\n", ""))
+        if t not in seen:
+            seen.add(t)
+            rscheds.append(json.loads(t))
+    _, rcover = pc.select(ctx, rscheds, 4000 if ctx.thorough else 1200)
+    rin, rtrace = ctx.path("m2resp.sched.ndjson"), ctx.path("m2resp.trace.ndjson")
+    pc.write_schedules(rin, [{"id": "resp-c%d" % i, "sched": s["sched"]} for i, s in enumerate(rcover)])
+    ctx.run_bin(binary, ["resp-run", "--in", rin, "--out", rtrace])
+    ctx.cov["traces_validated_against_impl"] += len(rcover)
+    ctx.cov["responder_schedules_replayed"] = len(rcover)
+    judge(ctx, rtrace, "TLC schedule replay (responder)")
+    drift(ctx, rtrace, "M2-responder", module="TraceResponder")
+
     # 2. M2: TLC schedules -> real InitiatorBehavior
     trace, res = pc.replay(ctx, binary, rows, "m2")
     ctx.cov["traces_validated_against_impl"] += len(rows)
@@ -124,6 +150,7 @@ def run(ctx):
     ctx.sample({"responder_random_driver": json.loads(out)["stats"]})
     n_i, _ = judge(ctx, tr_i, "random initiator run")
     n_r, _ = judge(ctx, tr_r, "random responder run")
+    drift(ctx, tr_r, "M3-responder", module="TraceResponder")
     ctx.cov["traces_validated_against_impl"] += 2 * runs
     ctx.sample({"impl_trace_event": pc.slim(vlib.read_ndjson(tr_i)[3])})
     # small runs compared with the design model step by step (arbitrary input included)
@@ -152,6 +179,15 @@ def run(ctx):
         vlib.write_ndjson(p2, mal)
         ok2, m2, _, _, _ = pc.validate(ctx, "TraceNoPanic", p2, count=False)
         ctx.selftest("event %d without outputs" % (idx + 1), (not ok2) and m2 == idx)
+        # the design-model comparison must notice a corrupted snapshot field
+        ci = next(i for i, e in enumerate(ev) if i > 20 and e.get("ev") == "recv" and e.get("peers"))
+        cor = json.loads(json.dumps(ev[:ci + 5]))
+        cor[ci]["peers"][0]["ka"] = "Server" if cor[ci]["peers"][0]["ka"] != "Server" else "Client"
+        p3 = ctx.path("selftest_snapshot.ndjson")
+        vlib.write_ndjson(p3, cor)
+        _, _, _, _, marks = pc.validate(ctx, "TraceResponder", p3, count=False)
+        ctx.selftest("keep-alive state class of a peer flipped at event %d" % (ci + 1),
+                     any(t == "DRIFT" and l == ci + 1 for t, l, _ in marks))
 
     return ctx.finish(
         rule="MC: Initiator.tla with an unconstrained environment (2 peers, every event and every message kind of the "
